@@ -33,6 +33,9 @@ type bodyIn struct {
 	Expect   bool        `json:"expect"`  // the client announces its body with "Expect: 100-continue"
 	Gzip     bool        `json:"gzip"`    // proxy.gzip.contenttype configured (^text/): the gzip handler sits in the chain
 	AE       string      `json:"ae"`      // the client's Accept-Encoding ("" = none)
+	CType    string      `json:"ctype"`   // the request's Content-Type ("" = application/octet-stream)
+	RCE      string      `json:"rce"`     // the Content-Encoding the upstream declares for its reply ("" = none): already encoded content
+	Cfg      pcfg        `json:"cfg"`     // proxy configuration beside the route: must not matter
 }
 
 type bodyOut struct {
@@ -53,7 +56,11 @@ type bodyOut struct {
 	// what the client saw, codes and end-to-end headers
 	SentInterim []interimOut `json:"sent_interim"`
 	GotInterim  []interimOut `json:"got_interim"`
-	Decoded     bool         `json:"decoded"` // the reply arrived gzip-encoded by fabio and was decoded for the comparison
+	// when the reply arrived with "Content-Encoding: gzip" and is a gzip stream: what it decodes to. Whether that
+	// coding is fabio's own (to be undone before comparing) or the upstream's (to be left alone) is decided in Lean.
+	DecOK  bool   `json:"dec_ok"`
+	DecLen int    `json:"dec_len"`
+	DecSHA string `json:"dec_sha"`
 }
 
 type interimOut struct {
@@ -80,20 +87,6 @@ func groupHdr(hs [][2]string) []kv {
 	}
 	sortKV(want)
 	return want
-}
-
-func dropNames(h []kv, names ...string) []kv {
-	out := []kv{}
-	for _, x := range h {
-		skip := false
-		for _, n := range names {
-			skip = skip || x.K == n
-		}
-		if !skip {
-			out = append(out, x)
-		}
-	}
-	return out
 }
 
 func seeded(seed uint64, n int) []byte {
@@ -179,13 +172,34 @@ func runBody(raw json.RawMessage) (interface{}, error) {
 	if in.AE != "" && (!validValue(in.AE) || strings.ContainsAny(in.AE, "\r\n")) {
 		return nil, errors.New("accept-encoding cannot be sent")
 	}
+	if in.CType != "" && !validValue(in.CType) {
+		return nil, errors.New("content-type cannot be sent")
+	}
+	if in.RCE != "" && (!validValue(in.RCE) || strings.ContainsAny(in.RCE, "\r\n")) {
+		return nil, errors.New("content-encoding cannot be sent")
+	}
+	if strings.EqualFold(in.RCE, "gzip") && in.AE == "" {
+		// Go's transport asks for gzip on its own hop when the client named no coding and then decodes the reply
+		// itself: the upstream's (seeded, not really gzip) body would not survive that. Kept out (assumption).
+		return nil, errors.New("gzip-labelled reply to a client that named no coding")
+	}
+	if err := in.Cfg.check(); err != nil {
+		return nil, err
+	}
+	if in.RCE != "" {
+		rh = append(rh, [2]string{"Content-Encoding", in.RCE})
+	}
 	body := seeded(in.ReqSeed, in.ReqLen)
 	rbody := seeded(in.RSeed, in.RLen)
 	if noBody(in.Method, in.RStatus) {
 		rbody = nil
 	}
 	var b bytes.Buffer
-	fmt.Fprintf(&b, "%s /b/x HTTP/1.1\r\nHost: example.com\r\nContent-Type: application/octet-stream\r\n", in.Method)
+	ctype := in.CType
+	if ctype == "" {
+		ctype = "application/octet-stream"
+	}
+	fmt.Fprintf(&b, "%s /b/x HTTP/1.1\r\nHost: example.com\r\nContent-Type: %s\r\n", in.Method, ctype)
 	if in.AE != "" {
 		fmt.Fprintf(&b, "Accept-Encoding: %s\r\n", in.AE)
 	}
@@ -228,7 +242,7 @@ func runBody(raw json.RawMessage) (interface{}, error) {
 	var resp *clientResp
 	var err error
 	for attempt := 0; attempt < 3; attempt++ {
-		if err = e.install(cfg, cmd, rep); err != nil {
+		if err = e.installCfg(cfg, in.Cfg, cmd, rep, nil); err != nil {
 			return nil, err
 		}
 		if resp, err = e.roundTrip(in.Method, b.Bytes(), false); err == nil {
@@ -240,29 +254,20 @@ func runBody(raw json.RawMessage) (interface{}, error) {
 	}
 	hits, up := e.seen()
 	got := resp.Raw
-	decoded := false
 	gotHdr := e2e(resp.Hdr)
 	wantHdr := e2e(groupHdr(rh))
-	if in.Gzip {
-		// compression is C17's; here it must not change status, headers (apart from its own) or content
-		for _, x := range resp.Hdr {
-			if x.K == "Content-Encoding" && len(x.V) == 1 && x.V[0] == "gzip" && len(got) > 0 {
-				zr, err := gzip.NewReader(bytes.NewReader(got))
-				if err != nil {
-					return nil, fmt.Errorf("gunzip: %v", err)
+	out := bodyOut{Hits: hits, SentLen: len(body), SentSHA: sha(body), Status: resp.Status, RepLen: len(rbody), RepSHA: sha(rbody),
+		GotLen: len(got), GotSHA: sha(got), GotHdr: gotHdr, RepHdr: wantHdr,
+		SentInterim: []interimOut{}, GotInterim: []interimOut{}}
+	for _, x := range resp.Hdr {
+		if x.K == "Content-Encoding" && len(x.V) == 1 && x.V[0] == "gzip" && len(got) > 0 {
+			if zr, err := gzip.NewReader(bytes.NewReader(got)); err == nil {
+				if dec, err := io.ReadAll(zr); err == nil {
+					out.DecOK, out.DecLen, out.DecSHA = true, len(dec), sha(dec)
 				}
-				if got, err = io.ReadAll(zr); err != nil {
-					return nil, fmt.Errorf("gunzip: %v", err)
-				}
-				decoded = true
 			}
 		}
-		gotHdr = dropNames(gotHdr, "Vary", "Content-Encoding")
-		wantHdr = dropNames(wantHdr, "Vary", "Content-Encoding")
 	}
-	out := bodyOut{Hits: hits, SentLen: len(body), SentSHA: sha(body), Status: resp.Status, RepLen: len(rbody), RepSHA: sha(rbody),
-		GotLen: len(got), GotSHA: sha(got), GotHdr: gotHdr, RepHdr: wantHdr, Decoded: decoded,
-		SentInterim: []interimOut{}, GotInterim: []interimOut{}}
 	for _, im := range in.Interim {
 		out.SentInterim = append(out.SentInterim, interimOut{im.Code, e2e(groupHdr(im.Hdr))})
 	}
@@ -271,9 +276,6 @@ func runBody(raw json.RawMessage) (interface{}, error) {
 			continue
 		}
 		h := e2e(resp.IHdr[i])
-		if in.Gzip {
-			h = dropNames(h, "Vary")
-		}
 		out.GotInterim = append(out.GotInterim, interimOut{code, h})
 	}
 	if up != nil {
@@ -287,6 +289,9 @@ func init() {
 	statuses := []int{200, 200, 201, 202, 204, 206, 301, 302, 304, 400, 401, 403, 404, 404, 418, 429, 500, 502, 503, 503, 599, 299, 999}
 	hn := []string{"X-Custom", "Content-Type", "Set-Cookie", "Set-Cookie", "Cache-Control", "Etag", "Location", "X-A", "Vary", "Server", "Www-Authenticate"}
 	hv := []string{"1", "text/plain", "a=b; Path=/", "c=d", "no-store", "W/\"x\"", "http://UPSTREAM/x", "/rel", "Accept-Encoding", "up/1", ""}
+	codings := []string{"br", "br", "deflate", "identity", "zstd", "gzip", "x-gzip", "GZIP", "compress", "deflate, br"}
+	ctypes := []string{"application/x-www-form-urlencoded", "application/x-www-form-urlencoded", "application/x-www-form-urlencoded; charset=UTF-8",
+		"multipart/form-data; boundary=b", "application/json", "text/plain"}
 	sizes := []int{0, 0, 1, 2, 100, 4095, 4096, 4097, 32 << 10, 65535, 65536, 65537, 1 << 20, 2 << 20}
 	hx.Register(&hx.Stream{
 		Name: "c07.body",
@@ -310,6 +315,17 @@ func init() {
 			bodyIn{Method: "GET", RStatus: 200, RLen: 2000, Interim: []interim{{Code: 103, Hdr: [][2]string{{"Link", "</style.css>; rel=preload; as=style"}}}}, Gzip: true, AE: "gzip", RHdr: [][2]string{{"Content-Type", "text/plain"}}},
 			bodyIn{Method: "GET", RStatus: 400, RLen: 2000, Interim: []interim{{Code: 103, Hdr: [][2]string{{"Link", "</style.css>; rel=preload; as=style"}}}}, Gzip: true, RHdr: [][2]string{{"Content-Type", "text/plain"}}},
 			bodyIn{Method: "GET", RStatus: 404, RLen: 2000, Gzip: true, AE: "gzip", RHdr: [][2]string{{"Content-Type", "text/html"}}},
+			// content the upstream encoded itself goes through as it is, gzip handler or not
+			bodyIn{Method: "GET", RStatus: 200, RLen: 300, Gzip: true, AE: "gzip, br", RCE: "br", RHdr: [][2]string{{"Content-Type", "text/plain"}}},
+			bodyIn{Method: "GET", RStatus: 200, RLen: 300, Gzip: true, AE: "gzip, deflate", RCE: "deflate", RHdr: [][2]string{{"Content-Type", "text/html; charset=utf-8"}}},
+			bodyIn{Method: "GET", RStatus: 200, RLen: 300, Gzip: true, AE: "gzip", RCE: "identity", RHdr: [][2]string{{"Content-Type", "text/plain"}}},
+			bodyIn{Method: "GET", RStatus: 200, RLen: 300, Gzip: true, AE: "gzip", RCE: "gzip", RHdr: [][2]string{{"Content-Type", "text/plain"}}},
+			bodyIn{Method: "GET", RStatus: 200, RLen: 300, AE: "br", RCE: "br"},
+			// a form body with every optional stage of ServeHTTP switched on
+			bodyIn{Method: "POST", ReqLen: 40, ReqSeed: 3, CType: "application/x-www-form-urlencoded", RStatus: 200, RLen: 2,
+				Cfg: pcfg{Span: "{{.Method}} {{.Path}}", ReqID: "X-Request-Id", Log: true, Stats: true, Flush: 5}},
+			bodyIn{Method: "PUT", ReqLen: 300, ReqSeed: 4, Chunks: []int{7}, CType: "application/x-www-form-urlencoded", RStatus: 201, RLen: 2, Cfg: pcfg{Span: "static"}},
+			bodyIn{Method: "PATCH", ReqLen: 10, ReqSeed: 5, CType: "multipart/form-data; boundary=b", RStatus: 200, RLen: 2, Gzip: true, Cfg: pcfg{Span: "{{.RawQuery}}", Log: true}},
 			bodyIn{Method: "PUT", ReqLen: 70000, Chunks: []int{4096}, RStatus: 500, RLen: 70000, RChunked: true, Expect: true, Interim: []interim{{Code: 103, Hdr: [][2]string{{"Link", "</style.css>; rel=preload; as=style"}}}}},
 		},
 		Gen: func(r *hx.Rand, i int) interface{} {
@@ -358,6 +374,20 @@ func init() {
 			if in.Gzip && r.Chance(1, 2) {
 				in.RHdr = append(in.RHdr, [2]string{"Content-Type", r.Pick([]string{"text/plain", "text/html; charset=utf-8"})})
 			}
+			// content the upstream has already encoded: whatever the proxy is configured to do, it is not fabio's to touch
+			if r.Chance(1, 4) {
+				in.RCE = r.Pick(codings)
+				if strings.EqualFold(in.RCE, "gzip") && in.AE == "" {
+					in.AE = "gzip"
+				}
+				if r.Chance(1, 2) {
+					in.RHdr = append(in.RHdr, [2]string{"Content-Type", r.Pick([]string{"text/plain", "text/css"})})
+				}
+			}
+			if in.ReqLen > 0 && r.Chance(1, 3) {
+				in.CType = r.Pick(ctypes)
+			}
+			in.Cfg = genCfg(r)
 			return in
 		},
 		Run: runBody,
